@@ -468,6 +468,8 @@ inductive Op where
   | surplusFund (app asset u : Nat) (x : Int)             -- WasmMsgGetSurplusFund
   | v2SurplusClose (app asset u : Nat) (lot : Int)        -- CloseEnglishAuction, surplus branch
   | v2DebtClose (app asset : Nat) (c d : Int)             -- CloseEnglishAuction, debt branch: receives d, records c
+  | v2Penalty (app coll debt : Nat) (x : Int)             -- auctionsV2 bid.go:175-187 (and auctions.go:510-516): the penalty arrives in
+                                                          -- the DEBT asset and is recorded under the DEBT asset (since fix d8b6c2e, D34)
   | config (c : Cfg)                                      -- governance / emergency configuration
   | activate (gen2 : Bool) (keys : List (Nat × Nat))      -- start decisions of one begin-block (x/auction resp. liquidationsV2)
   | begin1 (now : Int) (keys : List (Nat × Nat))          -- the whole first-generation begin-blocker: starts, restarts, closes
@@ -636,11 +638,18 @@ def step (s : State) : Op → Option State
   | .v2DebtClose app asset c d =>
     -- auctions.go:419-427: `DebtToken` (d, collector asset) arrives, `CollateralToken.Amount` (c, other asset) is recorded
     ((creditCollector s asset d).bind fun s1 => setNetFee s1 (app, asset) c).bind fun s2 => clearActive s2 (app, asset)
+  | .v2Penalty app _ debt x =>
+    (if x > 0 then creditCollector s debt x else some s).bind fun s1 => setNetFee s1 (app, debt) x
   | .config c => some (applyCfg s c)
   | .activate gen2 keys => some (activate s gen2 keys)
   | .begin1 now keys => some (begin1Loop s s.amap now keys)
   | .surplusBid app id u amt now => surplusBid s app id u amt now
   | .debtBid app id u bid exp now => debtBid s app id u bid exp now
+
+/-- What the second-generation penalty booking did BEFORE fix d8b6c2e (finding D34): the coins of the debt asset arrive, the record
+of the COLLATERAL asset rises. Not an operation of the model any more; kept for `C13.v2_penalty_before_fix_counterexample`. -/
+def v2PenaltyBeforeFix (s : State) (app coll debt : Nat) (x : Int) : Option State :=
+  (if x > 0 then creditCollector s debt x else some s).bind fun s1 => setNetFee s1 (app, coll) x
 
 /-- The two closes as they would read after the small repair proposed in notes/C13.md (surplus: hand out the lot that
 `GetAmountFromCollector` already moved to the first-generation auction account and leave the record alone; debt: record what
